@@ -657,6 +657,7 @@ def merge_with_voice(notes, other, measure_start):
 
 def merge_measure_contents(notes, other, measure_start):
     merged = {}
+    unmerged = {}
     # cost (measured as the total forward/backup jumps needed to merge) all
     # elements in `other` into each voice
     cost = {}
@@ -666,6 +667,11 @@ def merge_measure_contents(notes, other, measure_start):
         merged[voice], cost[voice] = merge_with_voice(
             notes[voice], other, measure_start
         )
+        # the voice on its own, with the forward elements needed to bridge
+        # gaps between its notes (the jump to its first note is made when
+        # switching voices below)
+        voice_start = notes[voice][0][0] if notes[voice] else measure_start
+        unmerged[voice], _ = merge_with_voice(notes[voice], [], voice_start)
 
     if not merged:
         merged[0] = []
@@ -688,7 +694,7 @@ def merge_measure_contents(notes, other, measure_start):
             elements = merged[voice]
 
         else:
-            elements = notes[voice]
+            elements = unmerged[voice]
 
         # backup/forward when switching voices if necessary
         if elements:
